@@ -164,6 +164,20 @@ class Explorer(object):
         self.segments = []
         self.notes = []
         self.helper_cache = {}
+        self.exvals = {}
+        self.tables = {}      # name of a const char array with a literal initialiser -> its bytes (terminator included)
+        for g in list(u.globals) + [d for (_f, d) in u.static_locals()]:
+            t = u.ty(g['ty'])
+            if t['c'] == 'array' and 'init' in g and (g.get('const') or t.get('const')):
+                ini = strip_casts(g['init'])
+                tb = None
+                if ini.get('k') == 'str':
+                    tb = list(ini['bytes'])
+                elif ini.get('k') == 'initlist' and all(const_val(i) is not None for i in ini['inits']):
+                    tb = [const_val(i) & 255 for i in ini['inits']]
+                if tb is not None and t.get('count') is not None:
+                    tb = (tb + [0] * t['count'])[:t['count']]       # the terminator of a literal and trailing zero-initialised elements
+                    self.tables[g['n']] = tb
 
     # ---- positions -----------------------------------------------------------------------------------
     def cursor_of(self, e):
@@ -187,17 +201,118 @@ class Explorer(object):
             return None
         idx = acc[1]
         if not isinstance(idx, int):
-            idx = self.ev(idx, st, {})
+            iv = self.ev(idx, st, {})
+            if iv is None:
+                # cursor[counter + k]: a position relative to cursor + <the counter's value at the start of the segment>
+                n = self.delta_base(idx)
+                v = self.value_of(idx, st, {}) if n is not None else None
+                if v is not None and v[0] == 'd':
+                    return (('ix', p[0], n), p[1] + v[1])
+                return None
+            idx = iv
+        return (p[0], p[1] + idx)
+
+    def is_pointer(self, e):
+        t = self.u.ty(strip_casts(e).get('ty0', strip_casts(e).get('ty'))) if strip_casts(e).get('ty') is not None else None
+        t2 = self.u.ty(e.get('ty')) if e.get('ty') is not None else None
+        return (t is not None and t['c'] in ('ptr', 'array')) or (t2 is not None and t2['c'] == 'ptr')
+
+    def table_pos(self, x, st):
+        """(table, index) when the lvalue x designates an element of a constant table by name: T[i]"""
+        acc = access(x)
+        if acc is None:
+            return None
+        b = strip_casts(acc[0])
+        if b.get('k') == 'ref' and b.get('n') in self.tables and b.get('dk') in ('global', 'slocal'):
+            idx = acc[1]
+            if not isinstance(idx, int):
+                idx = self.ev(idx, st, {})
             if idx is None:
                 return None
-        return (p[0], p[1] + idx)
+            return (b['n'], idx)
+        return None
+
+    def table_search(self, rhs, st, loadpos):
+        """strchr(T, <byte>) / memchr(T, <byte>, n) over a constant table: [(state, pointer value)] with the state split by the
+        position found (the terminator of T is found by strchr for a zero byte, as in C), or None when rhs is not such a search."""
+        r = strip_casts(rhs)
+        if r.get('k') == 'cond':
+            t = self.truth_of(r['c'], st)
+            if t is None:
+                out = []
+                for tv in (True, False):
+                    s2 = self.refine(r['c'], tv, st, loadpos)
+                    if s2 is None:
+                        continue
+                    s2.truth[strip_casts(r['c']).get('id')] = tv
+                    sub = self.table_search(r['t'] if tv else r['e'], s2, loadpos)
+                    if sub is None:
+                        pv = self.pointer_value(r['t'] if tv else r['e'], s2)
+                        if pv is None:
+                            return None
+                        sub = [(s2, pv)]
+                    out += sub
+                return out
+            return self.table_search(r['t'] if t else r['e'], st, loadpos)
+        if r.get('k') != 'call' or callee_name(r) not in ('strchr', 'memchr', '__builtin_strchr', '__builtin_memchr') or len(r['args']) < 2:
+            return None
+        tv = self.pointer_value(r['args'][0], st)
+        if tv is None or tv[0][0] != 'tbl' or tv[1] is None:
+            return None
+        tb = self.tables[tv[0][1]][tv[1]:]
+        if callee_name(r) in ('memchr', '__builtin_memchr'):
+            n = self.ev(r['args'][2], st, {}, loadpos) if len(r['args']) > 2 else None
+            if n is None or n > len(tb):
+                return None
+            hay = tb[:n]
+        else:
+            if 0 not in tb:
+                return None
+            hay = tb[:tb.index(0) + 1]
+        d = self.deps(r['args'][1], st, loadpos)
+        if None in d or len(d) > 1:
+            return None
+        if not d:
+            v = self.ev(r['args'][1], st, {}, loadpos)
+            if v is None:
+                return None
+            v &= 255
+            return [(st, (tv[0], tv[1] + hay.index(v)) if v in hay else (('null',), 0))]
+        p = next(iter(d))
+        groups = {}
+        for b in st.B.get(p, ALL):
+            v = self.ev(r['args'][1], st, {p: b}, loadpos)
+            if v is None:
+                return None
+            v &= 255
+            groups.setdefault(hay.index(v) if v in hay else None, set()).add(b)
+        out = []
+        for idx, bs in sorted(groups.items(), key=lambda kv: (kv[0] is None, kv[0])):
+            s2 = st.copy()
+            s2.B[p] = frozenset(bs)
+            out.append((s2, (tv[0], tv[1] + idx) if idx is not None else (('null',), 0)))
+        return out
 
     def pointer_value(self, e, st):
         """(root, disp) of a pointer-valued expression: cursor, cursor + k, cursor - k, &cursor[k]."""
+        if e.get('null'):
+            return (('null',), 0)
         e = strip_casts(e)
         c = self.cursor_of(e) if e.get('k') == 'ref' else None
         if c is not None:
             return st.cur.get(c)
+        if e.get('k') == 'ref' and e.get('n') in self.tables and e.get('dk') in ('global', 'slocal'):
+            return (('tbl', e['n']), 0)
+        if e.get('null') or (const_val(e) == 0 and self.u.ty(e.get('ty'))['c'] == 'ptr'):
+            return (('null',), 0)
+        if e.get('k') == 'cond':
+            t = self.truth_of(e['c'], st)
+            if t is None:
+                cv = self.ev(e['c'], st, {})
+                t = None if cv is None else bool(cv)
+            if t is not None:
+                return self.pointer_value(e['t'] if t else e['e'], st)
+            return None
         if e.get('k') == 'bin' and e['op'] in ('+', '-'):
             l = self.pointer_value(e['l'], st)
             k = self.ev(e['r'], st, {})
@@ -241,6 +356,8 @@ class Explorer(object):
                 v = st.vals.get(self.scalars[x['d']])
                 if v is not None and v[0] == 'in':
                     out.add((v[1], v[2]))
+                elif v is not None and v[0] == 'ex':
+                    out.update(v[3])
                 return
             if k == 'cond' and x.get('id') in st.truth:
                 go(x['t'] if st.truth[x['id']] else x['e'])
@@ -297,10 +414,39 @@ class Explorer(object):
         e = strip_casts(e0)
         k = e.get('k')
         val = None
+        if k in ('idx', 'un') and access(e) is not None and self.table_pos(e, st) is not None:
+            tn, ti = self.table_pos(e, st)
+            tb = self.tables[tn]
+            if not (0 <= ti < len(tb)):
+                return None
+            val = tb[ti]
+            return self.finish(e0, e, val)
+        if k == 'bin' and e['op'] in ('==', '!=') and self.is_pointer(e['l']) and self.is_pointer(e['r']):
+            l, r = self.pointer_value(e['l'], st), self.pointer_value(e['r'], st)
+            if l is None or r is None or l[1] is None or r[1] is None:
+                return None
+            known = lambda pv: pv[0][0] in ('tbl', 'null')
+            if known(l) and known(r):
+                return int((l == r) == (e['op'] == '=='))
+            if (l[0] == ('null',)) != (r[0] == ('null',)) and (known(l) or known(r)):
+                other = r if l[0] == ('null',) else l
+                if other[0][0] in ('tbl', 'p', 'g'):      # objects, parameters already dereferenced: not null
+                    return int(e['op'] == '!=') if other[0][0] == 'tbl' else None
+            return None
+        if k == 'bin' and e['op'] == '-' and self.is_pointer(e['l']) and self.is_pointer(e['r']):
+            l, r = self.pointer_value(e['l'], st), self.pointer_value(e['r'], st)
+            if l is not None and r is not None and l[0] == r[0] and l[1] is not None and r[1] is not None and l[0] != ('null',):
+                return self.finish(e0, e, l[1] - r[1])
+            return None
+        if k == 'ref' and e.get('d') in self.cursors and False:
+            return None
         if k in ('idx', 'un') and access(e) is not None and self.cursor_of(access(e)[0]) is not None:
             p = loadpos.get(e.get('id')) or self.pos_of(e, st)
             if p is None:
                 return None
+            if isinstance(p[0], tuple) and p[0][0] == 'tbl':
+                tb = self.tables[p[0][1]]
+                return self.finish(e0, e, tb[p[1]]) if 0 <= p[1] < len(tb) else None
             o = st.over.get(p, 'none')
             if o == 'none':
                 val = subst.get(p)
@@ -329,6 +475,17 @@ class Explorer(object):
                         b = st.B.get((sv[1], sv[2]), ALL)
                         if len(b) == 1:
                             val = next(iter(b))
+                    if val is None:
+                        return None
+                elif sv[0] == 'ex':
+                    e2, st2, lp2 = self.exvals[sv]
+                    sub2 = dict(subst)
+                    for pp in sv[3]:
+                        if pp not in sub2:
+                            b = st.B.get(pp, ALL)
+                            if len(b) == 1:
+                                sub2[pp] = next(iter(b))
+                    val = self.ev(e2, st2, sub2, lp2)
                     if val is None:
                         return None
                 else:
@@ -494,6 +651,19 @@ class Explorer(object):
                 return self.value_of(x['t'] if c else x['e'], st, loadpos)
         return None
 
+    def delta_base(self, e):
+        e = strip_casts(e)
+        while e.get('k') == 'bin' and e['op'] in ('+', '-'):
+            if const_val(e['r']) is not None:
+                e = strip_casts(e['l'])
+            elif const_val(e['l']) is not None and e['op'] == '+':
+                e = strip_casts(e['r'])
+            else:
+                return None
+        if e.get('k') == 'ref' and e.get('d') in self.scalars:
+            return self.scalars[e['d']]
+        return None
+
     def split(self, e, st, loadpos, limit=16):
         """[(state, abstract value)]: when e depends on one position and takes at most `limit` distinct values over that
         position's byte set, the state is split per value; otherwise one entry with value_of()."""
@@ -510,14 +680,33 @@ class Explorer(object):
                     return [(st, None)]
                 groups.setdefault(r, set()).add(b)
                 if len(groups) > limit:
-                    return [(st, None)]
+                    return [(st, self.symbolic(e, st, loadpos, d))]
             out = []
             for r, bs in sorted(groups.items()):
                 s2 = st.copy()
                 s2.B[p] = frozenset(bs)
                 out.append((s2, ('k', r)))
             return out
-        return [(st, None)]
+        return [(st, self.symbolic(e, st, loadpos, d))]
+
+    def symbolic(self, e, st, loadpos, d=None):
+        """('ex', ...) key of a value that is a function of input bytes too varied to split on: the expression with the positions
+        its loads designate now; evaluated later under a substitution of those bytes."""
+        d = self.deps(e, st, loadpos) if d is None else d
+        if not d or None in d:
+            return None
+        lp = dict(loadpos or {})
+        for x in walk(e):
+            x0 = strip_casts(x)
+            if x0.get('k') in ('idx', 'un') and access(x0) is not None and self.cursor_of(access(x0)[0]) is not None and x0.get('id') not in lp:
+                p = self.pos_of(x0, st)
+                if p is None:
+                    return None
+                lp[x0['id']] = p
+        key = ('ex', e.get('id'), tuple(sorted(lp.items(), key=repr)), tuple(sorted(d, key=repr)))
+        if key not in self.exvals:
+            self.exvals[key] = (e, st.copy(), lp)
+        return key
 
     def refine(self, e, truth, st, loadpos=None):
         """State after condition e evaluated to truth, or None when that is impossible on this path."""
@@ -789,6 +978,13 @@ class Explorer(object):
             if target.get('k') == 'ref' and target.get('d') in self.cursors:
                 c = self.cursors[target['d']]
                 if op == '=':
+                    found = self.table_search(rhs, st, loadpos)
+                    if found is not None:
+                        out = []
+                        for (s2, pv) in found:
+                            s2.cur[c] = pv
+                            out.append(s2)
+                        return out
                     st.cur[c] = self.pointer_value(rhs, st)
                     if st.cur[c] is None:
                         # a pointer this exploration knows nothing about: a fresh stream
@@ -806,6 +1002,8 @@ class Explorer(object):
                 if op == '=':
                     out = []
                     for (s2, v) in self.split(rhs, st, loadpos):
+                        if v is not None and v[0] == 'd' and self.delta_base(rhs) != n:
+                            v = None       # a delta is relative to that scalar's own value at the start of the segment
                         s2.vals[n] = v
                         out.append(s2)
                     return out
